@@ -53,7 +53,13 @@ func checkCase(c Case) (Outcome, error) {
 		return out, fmt.Errorf("harness: %v", err)
 	}
 	defer ref.Close()
-	if err := ref.Exec(c.B.DDL(model.StyleAtlas)...); err != nil {
+	styleB := model.StyleAtlas
+	for _, t := range c.B.Tables {
+		if len(t.InlineUnique) > 0 {
+			styleB = model.StyleNative // only the native style renders inline UNIQUE column constraints
+		}
+	}
+	if err := ref.Exec(c.B.DDL(styleB)...); err != nil {
 		return out, fmt.Errorf("harness: generated DDL rejected by SQLite: %v", err)
 	}
 	desired, err := ref.Inspect(ctx)
